@@ -511,7 +511,10 @@ func TestC18Dpipe(t *testing.T) {
 					}
 				}
 				buf := make([]byte, bl)
+				// the model says a message is waiting: a deadline turns a lost message into a finding, not a hang
+				_ = conns[s].SetReadDeadline(time.Now().Add(3 * time.Second))
 				nn, err := conns[s].Read(buf)
+				_ = conns[s].SetReadDeadline(time.Time{})
 				c.Op("read side%d buf%d -> %d", s, bl, nn)
 				t.Logf("step %d: read side%d buf=%d -> %d,%v (message of %d bytes)", i, s, bl, nn, err, len(want))
 				if err != nil {
@@ -552,6 +555,7 @@ func TestC18Dpipe(t *testing.T) {
 			}
 			for _, want := range q[s] {
 				buf := make([]byte, 2100)
+				_ = conns[s].SetReadDeadline(time.Now().Add(3 * time.Second))
 				nn, err := conns[s].Read(buf)
 				if err != nil || !bytes.Equal(buf[:nn], want) {
 					t.Fatalf("C18: final drain of side %d: got %d bytes err=%v, want %d bytes", s, nn, err, len(want))
